@@ -49,6 +49,11 @@ def gen(rng, tier):
             sub = rng.sample(sub, k)
         cases += sub
     cases += gnu_shift_cases(rng)
+    # every spec x integer kind at offsets whose end overflows usize (a spec may override a provided reader)
+    for spec in SPECS:
+        for kind in ("u8", "u16", "u32", "u64", "i32", "i64"):
+            for off in (USIZE_MAX, USIZE_MAX - 1, USIZE_MAX - 3, USIZE_MAX - 7, 2**63, 9):
+                cases.append("int %s %s %d %s" % (spec, kind, off, hx(bytes(range(1, 10)))))
     # notes with absurd alignments, after a header and name that parse
     for little in (True, False):
         data = elfgen.enc_notes(little, 4, [(1, b"GNU\0", bytes(16)), (5, b"XY\0", b"abc"), (3, b"GNU\0", b"12345")])
